@@ -42,6 +42,36 @@ TEXT = {
         "note": TB + "Modelled rather than verified: the regexes (closed-form recognisers + bounded-exhaustive differential tie); maximal-munch completeness of list arguments is tied by correspondence, not proved.",
         "technique": "Lean 4 proofs (recogniser = relational grammar for bare keywords; soundness/exactness for argument keywords) + bounded-exhaustive and fuzz differential correspondence against the regexes",
     },
+    "C01": {
+        "level": "Theorem immutable_exact: for every abstract program (any nesting, declaration order, number of files, package-level initialisers) the diagnostics of the modelled "
+                 "CheckImmutable are exactly the positional specification ImmReported: a plain/compound/incdec/index write site (or receiver overwrite) whose defined type (aliases always, "
+                 "pointer once) is @immutable in its own package or a direct import, field not @mutable, enclosing top-level declaration not a constructor of the type declared in the type's own "
+                 "package. Core lemma immDecl_eq: the stateful walk equals a stateless map with the enclosing top-level function/receiver. The model is tied to the real analyzers on generated "
+                 "multi-package programs (all placements of the quantifier) and corpus modules, comparing (position, code) sets, annotations read and @ignore markers.",
+        "note": TB + "Modelled rather than verified: the checkers (hand model, differential tie in-process through x/tools' checker).",
+        "technique": "Lean 4 proof (stateful tree walk = positional specification, by list induction over the preorder) + whole-program differential correspondence",
+    },
+    "C02": {
+        "level": "Theorem constructor_exact: the modelled CheckConstructor reports exactly CtorReported - every composite literal (incl. &T{} and elided), new(T), and value-less non-blank var name "
+                 "whose defined type has a non-empty constructor list, unless the enclosing top-level declaration is a listed function of the type's own package; pointer vars, blank identifiers, "
+                 "initialised vars and unannotated types offer no site; a same-named function of another package is not exempt. Tied as C01.",
+        "note": TB + "Modelled rather than verified: the checkers (hand model, differential tie).",
+        "technique": "Lean 4 proof (walk = positional specification) + whole-program differential correspondence",
+    },
+    "C03": {
+        "level": "Theorem testonly_exact: per non-test, non-excluded file, over the uses in preorder outside @testonly declarations, exactly the unsuppressed calls of @testonly functions/methods and, "
+                 "per @testonly type, its first unsuppressed use are reported (generic fold lemma mem_runEvs: suppression test before deduplication = first unsuppressed occurrence per key); test files "
+                 "and @testonly declarations contribute nothing; identifiers that merely share a name are not calls. Tied as C01.",
+        "note": TB + "Modelled rather than verified: the checkers (hand model, differential tie).",
+        "technique": "Lean 4 proof (pruned walk + dedup fold = declarative first-unsuppressed-use specification) + whole-program differential correspondence",
+    },
+    "C04": {
+        "level": "Theorem packageonly_exact with allow_union: a reference from P to an item of D != P is reported iff the item carries @packageonly and neither P's path nor P's name is in the union of all "
+                 "its lists (membership independent of line order and duplicates); PKGO01 exactly at the first unsuppressed reference per file and type; the declaring package is always allowed; "
+                 "a bare annotation allows only D; unannotated items are silent. Tied as C01.",
+        "note": TB + "Modelled rather than verified: the checkers and util.AttachmentsMap (hand model, differential tie).",
+        "technique": "Lean 4 proof (dedup fold = first-unsuppressed-reference specification; allow-list = union) + whole-program differential correspondence",
+    },
 }
 
 # properties not (yet) claimed, with the reason; anything claimed in registry.PROPS is dropped from this list automatically
